@@ -802,7 +802,7 @@ func ruleC11(c *Ctx, r *Report) {
 		c.Method("mysql", "Conn", "readOnePacket"):             "packet reader",
 	}
 	for _, s := range c.callSites(func(cc *ssa.CallCommon) bool { return callsFunc(cc, fn) }) {
-		if why, ok := allowed[s.Fn]; ok {
+		if why, ok := allowedVia(c, allowed, s.Fn); ok {
 			r.ok(rule, c.FuncName(s.Fn), "calls:readHeaderFrom", c.Pos(s.In.Pos()), why)
 		} else {
 			r.viol(rule, c.FuncName(s.Fn), "calls:readHeaderFrom", c.Pos(s.In.Pos()), "packet headers are read outside the listed packet readers")
